@@ -36,17 +36,18 @@ type Prog struct {
 	funcList  []*FuncInfo
 
 	// set when the program is the normalised (helper-expanded) view
-	posLayers   []map[string]*fileMap // one per normalisation round, oldest first
-	overlay     map[string][]byte
-	expandedAll map[string]bool
-	nExpanded   int
-	origSrc     map[string][]byte
-	lineStarts  map[string][]int
-	Normalised  string
-	expandedFns map[string]bool      // helpers expanded at one or more call sites
-	collect     map[*types.Func]bool // anchor collection mode
-	liveList    []*FuncInfo
-	quiet       map[*FuncInfo]bool
+	posLayers    []map[string]*fileMap // one per normalisation round, oldest first
+	overlay      map[string][]byte
+	expandedAll  map[string]bool
+	nExpanded    int
+	origSrc      map[string][]byte
+	lineStarts   map[string][]int
+	Normalised   string
+	ExpandedList []string
+	expandedFns  map[string]bool      // helpers expanded at one or more call sites
+	collect      map[*types.Func]bool // anchor collection mode
+	liveList     []*FuncInfo
+	quiet        map[*FuncInfo]bool
 }
 
 // FuncInfo is one source function (declaration) of a repo package.
